@@ -17,6 +17,17 @@ from rules_common import rcap, where
 import loops
 
 
+def _null_edge(f, b, idx, suffix):
+    """edge idx of block b is the one on which the pointer `..suffix` tested by the block's condition is NULL (any spelling)"""
+    from flow import atom
+    blk = f.blocks[b]
+    ek = f.edge_kind(b, idx)
+    if blk.cond is None or ek not in (True, False):
+        return False
+    n, pol = atom(blk.cond, ek)
+    return n is not None and (access_path(n) or "").endswith(suffix) and pol is False
+
+
 def load_table(ctx):
     with open(os.path.join(ctx.verif, "tables", "c05_rcap.json")) as f:
         return json.load(f)
@@ -395,7 +406,7 @@ def d2(db, rep):
         wit = path_to(f, r, lambda e: e.k == "BinaryOperator" and e.op == "=" and (access_path(e.c[0]) or "").endswith("program->code_exec"))
         wit2 = path_to(f, r, lambda e: (e.k == "CallExpr" and e.name == "orc_code_free") or
                        (e.k == "BinaryOperator" and e.op == "=" and (access_path(e.c[0]) or "").endswith("program->orccode")),
-                       lambda b, idx: not (f.blocks[b].cond is not None and (access_path(strip_casts(f.blocks[b].cond)) or "").endswith("program->orccode") and f.edge_kind(b, idx) is False))
+                       lambda b, idx: not _null_edge(f, b, idx, "program->orccode"))
         rep.check(wit is None and wit2 is None, "D2i-OLD-CODE-DROPPED", w, "return@%s" % r.line,
                   "the previous code object is released and code_exec reset on every path to this return",
                   "orc_compiler_compile_program can return (line %s) without having released the code object of an earlier compile / reset "
